@@ -1018,14 +1018,36 @@ class Message(ABC):
             value = self.__raw_get(name)
             if value is not PLACEHOLDER:
                 kwargs[name] = value
-        return self.__copy_state_to(self.__class__(**kwargs))  # type: ignore
+        # The children are shared with the copy: note their presence before the
+        # constructor sees them.
+        presence = self.__child_presence()
+        return self.__copy_state_to(self.__class__(**kwargs), presence)  # type: ignore
 
-    def __copy_state_to(self: T, other: T) -> T:
+    def __child_presence(self) -> Dict[str, bool]:
+        presence = {}
+        for name in self._betterproto.sorted_field_names:
+            value = self.__raw_get(name)
+            if isinstance(value, Message):
+                presence[name] = value._serialized_on_wire
+        return presence
+
+    def __copy_state_to(
+        self: T, other: T, presence: Optional[Dict[str, bool]] = None
+    ) -> T:
         # The constructor recomputes the bookkeeping from its arguments: it forgets
         # unknown fields and takes lazily materialised defaults for set values.
         other.__dict__["_serialized_on_wire"] = self._serialized_on_wire
         other.__dict__["_unknown_fields"] = self._unknown_fields
         other.__dict__["_group_current"] = dict(self._group_current)
+        # It also marks a message without fields that it is given as present (see
+        # __setattr__): a copy must not turn a lazily created default into a set
+        # value, neither on the copy nor - for a shallow copy - on the original.
+        if presence is None:
+            presence = self.__child_presence()
+        for name, on_wire in presence.items():
+            child = other.__raw_get(name)
+            if isinstance(child, Message):
+                child.__dict__["_serialized_on_wire"] = on_wire
         return other
 
     @classproperty
